@@ -2,6 +2,7 @@ package main
 
 import (
 	"crypto/sha1"
+	"encoding/binary"
 	"encoding/hex"
 	"fmt"
 	"math/rand"
@@ -260,5 +261,118 @@ func genRender(t *Tracer, m *Meta, tier string, seed int64) {
 		for _, enc := range []string{"i32", "none"} {
 			runRenderCase(t, m, &TrieCase{Keys: keys, Enc: enc, Vals: mkVals(r, "C19", enc, len(keys)), Opt4: all16[r.Intn(16)]})
 		}
+	}
+}
+
+// ---- large renderings (C19big) ---------------------------------------------------
+// Tries whose node ids need four, five and six digits.  TLC does not rebuild the Model
+// for them: Layer P only.  The event carries the node id of every rendered line, the
+// value of every leaf line (32-bit integers) and the values of the retained keys in key
+// order as the harness computes them from its own input (a witness of the expected
+// leaf column: `retained` is the harness's, not the library's).
+
+func renderBigEv(c *TrieCase, st *trie.SlimTrie, loaded int, params Ev, prevText *string) Ev {
+	pan, text := "", ""
+	func() {
+		defer func() {
+			if r := recover(); r != nil {
+				pan = fmt.Sprint(r)
+			}
+		}()
+		text = st.String()
+	}()
+	ids := []int{}
+	leafvals := []int{}
+	noid, badval := 0, 0
+	if pan == "" && text != "" {
+		for _, ln := range strings.Split(text, "\n") {
+			i := strings.Index(ln, "#")
+			if i < 0 {
+				noid++
+				continue
+			}
+			j := i + 1
+			for j < len(ln) && ln[j] >= '0' && ln[j] <= '9' {
+				j++
+			}
+			id, err := strconv.Atoi(ln[i+1 : j])
+			if err != nil {
+				noid++
+				continue
+			}
+			ids = append(ids, id)
+			if k := strings.Index(ln[j:], "="); k >= 0 {
+				x, err := strconv.ParseInt(ln[j+k+1:], 10, 32)
+				if err != nil {
+					badval++
+				}
+				leafvals = append(leafvals, int(x))
+			}
+		}
+	}
+	exp := []int{}
+	for _, i := range retained(c) {
+		exp = append(exp, int(int32(binary.LittleEndian.Uint32(c.Vals[i]))))
+	}
+	stat := StatEv(st)
+	same := 1
+	if loaded == 1 && prevText != nil && *prevText != text {
+		same = 0
+	}
+	if prevText != nil && loaded == 0 {
+		*prevText = text
+	}
+	return Ev{"ev": "renderbig", "params": params, "loaded": loaded, "pan": pan, "ids": ids, "leafvals": leafvals, "expvals": exp,
+		"noid": noid, "badval": badval, "nodecnt": stat["nodecnt"], "statpan": stat["pan"], "sameasfresh": same, "n": len(c.Keys)}
+}
+
+// renderBigCase regenerates a large rendering case from its parameters
+func renderBigCase(kind string, n int, kseed int64) *TrieCase {
+	r := rand.New(rand.NewSource(kseed))
+	fam := kind
+	maxLen := 5 + r.Intn(6)
+	if fam == "twosym" {
+		maxLen = 14
+	}
+	keys := genKeys(r, fam, n, maxLen)
+	o4 := all16[r.Intn(16)]
+	vals := valsRuns(r, "i32", len(keys), 1+r.Intn(4), 0)
+	return &TrieCase{Keys: keys, Enc: "i32", Vals: vals, Opt4: o4}
+}
+
+func runRenderBig(t *Tracer, m *Meta, kind string, n int, kseed int64) {
+	t.NextCase()
+	c := renderBigCase(kind, n, kseed)
+	m.countCase(c)
+	params := Ev{"kind": kind, "nreq": n, "kseed": fmt.Sprint(kseed)}
+	st, ec, pan := c.Build()
+	if st == nil {
+		t.Emit(Ev{"ev": "bigfail", "err": ec, "pan": pan, "n": len(c.Keys)})
+		return
+	}
+	text := ""
+	e := renderBigEv(c, st, 0, params, &text)
+	t.Emit(e)
+	m.Calls++
+	m.class(fmt.Sprintf("renderbig:id-digits=%d", len(fmt.Sprint(len(e["ids"].([]int))))))
+	if st2, _, _ := Reload(c, st); st2 != nil {
+		t.Emit(renderBigEv(c, st2, 1, params, &text))
+		m.Calls++
+	}
+}
+
+func genRenderBig(t *Tracer, m *Meta, tier string, seed int64) {
+	r := rand.New(rand.NewSource(seed*49979687 + 5))
+	type spec struct {
+		kind string
+		n    int
+	}
+	// ~1.1 .. 2 nodes per key: 4-digit ids from ~700 keys, 5-digit from ~7000, 6-digit from ~70000
+	specs := []spec{{"uniform", 800 + r.Intn(400)}, {"ascii", 1500 + r.Intn(1000)}, {"uniform", 7000 + r.Intn(3000)}, {"palette", 9000 + r.Intn(3000)}}
+	if tier != "quick" {
+		specs = append(specs, spec{"uniform", 70000 + r.Intn(30000)}, spec{"ascii", 100000}, spec{"twosym", 3000}, spec{"mixed", 20000})
+	}
+	for _, sp := range specs {
+		runRenderBig(t, m, sp.kind, sp.n, r.Int63())
 	}
 }
